@@ -26,7 +26,7 @@ def allDelivered (c : Case) : List Nat :=
 def stopsItself (c : Case) : Bool := c.first || c.limit != 0
 
 def faultCertain (c : Case) : Bool :=
-  (c.ofail != "" && c.op != "ccons" && c.op != "pipe") ||
+  (c.ofail != "" && c.op != "ccons" && c.op != "pipe") || c.kv.flag "sofail" ||
   c.cancel < 0 && !stopsItself c && c.park < 0 && c.filt == "" && c.op != "pipe" &&
     ((c.mf ≥ 0 && c.mf < c.n && (c.op == "cmap" || c.op == "nest" || c.op == "ccons")) ||
      (c.mp ≥ 0 && c.mp < c.n && (c.op == "cmap" || c.op == "nest" || c.op == "ccons")) ||
